@@ -281,9 +281,13 @@ fn expected_at<'a>(m: &'a Value, cp: u32) -> &'a Value {
 pub fn replay_gen(doc: &Value, t: &mut Tally) {
     let m = doc["m"].as_u64().unwrap() as u32;
     let dir = scratch();
+    // the renaming of the bidi values moves with the behaviour; a case replayed alone carries the position it had
+    let w0 = doc.get("window0").and_then(|v| v.as_u64()).unwrap_or(t.n) as usize;
+    let mut case = doc.clone();
+    case["window0"] = json!(w0);
     for (bi, base) in GEN_BASES.iter().enumerate() {
         FULL.with(|f| f.set(bi == 0));
-        let window = (t.n as usize + bi * 7) % 23;
+        let window = (w0 + bi * 7) % 23;
         let mut text = String::new();
         for l in doc["lines"].as_array().unwrap() {
             let mcp = l["cp"].as_u64().unwrap() as u32;
@@ -297,7 +301,7 @@ pub fn replay_gen(doc: &Value, t: &mut Tally) {
         let res = std::panic::catch_unwind(|| run_generators(&dir));
         let src = match res {
             Err(_) => {
-                t.mismatch(json!({"k": "gen", "base": base, "lines": doc["lines"], "actual": "panic in the generators"}));
+                t.mismatch(json!({"k": "gen", "case": case, "base": base, "lines": doc["lines"], "actual": "panic in the generators"}));
                 continue;
             }
             Ok(Err(e)) => {
@@ -306,7 +310,7 @@ pub fn replay_gen(doc: &Value, t: &mut Tally) {
                 if doc["dangling"].as_bool().unwrap_or(false) && !e.starts_with("STALE") {
                     continue;
                 }
-                t.mismatch(json!({"k": "gen", "base": base, "lines": doc["lines"], "actual": format!("generator error: {}", e)}));
+                t.mismatch(json!({"k": "gen", "case": case, "base": base, "lines": doc["lines"], "actual": format!("generator error: {}", e)}));
                 continue;
             }
             Ok(Ok(s)) => s,
@@ -365,7 +369,7 @@ pub fn replay_gen(doc: &Value, t: &mut Tally) {
             }
         }
         if !diffs.is_empty() {
-            t.mismatch(json!({"k": "gen", "base": base, "lines": doc["lines"], "diffs": diffs}));
+            t.mismatch(json!({"k": "gen", "case": case, "base": base, "lines": doc["lines"], "diffs": diffs}));
         }
     }
     if doc["lines"].as_array().unwrap().iter().any(|l| l["kind"] == "first") {
